@@ -41,6 +41,9 @@ def make_scripted(rec, script):
                 # every other edit is written IN PLACE into the ndarray jesse formatted earlier (when the shape allows it),
                 # the rest re-assigns a list / an ndarray: all are legal ways to change a declaration
                 cur = getattr(self, name)
+                if not rs:                       # a side withdrawn by declaring []
+                    setattr(self, name, [])
+                    return
                 k = sum(int(q) + int(p) for q, p in rs)
                 if isinstance(cur, np.ndarray) and cur.shape == (len(rs), 2) and k % 2 == 0:
                     cur[:, :] = np.array(rows(rs), dtype=float)
